@@ -626,6 +626,32 @@ theorem index_rules (hiter : ∀ k s, (iter k s).Perm s) (g : AList NT (AList DP
   have c1' : AList.lookup e.1 (mkLayerU abstraction iter grammars).real2abs = some (abstraction e.1) := c1
   simp [posOf, c1', hs, hl]
 
+/-- an index lies inside its slice, the slice inside the part of the tensor before the start
+    tags, and only primitives are indexed -/
+theorem index_range (hiter : ∀ k s, (iter k s).Perm s) (k : Abs) (s l : ℕ) (sym : AList DP ℕ) (P : DP) (i : ℕ)
+    (h : AList.lookup k (mkLayerU abstraction iter grammars).abs2index = some (s, l, sym))
+    (hp : AList.lookup P sym = some i) :
+    i < l ∧ s + l + (mkLayerU abstraction iter grammars).allStartsAbs.length
+              ≤ (mkLayerU abstraction iter grammars).outputSize ∧ P.kind = .prim := by
+  obtain ⟨set, _, _, _, a4, a5, a6, a7⟩ := abs2index_entry abstraction iter grammars hiter k s l sym h
+  have hget := (a6 P i).mp hp
+  refine ⟨by rw [← a4]; exact (List.getElem?_eq_some_iff.mp hget).1, ?_, ?_⟩
+  · have : (mkLayerU abstraction iter grammars).outputSize
+        = sumLens (mkLayerU abstraction iter grammars).allPairs
+          + (mkLayerU abstraction iter grammars).allStartsAbs.length := rfl
+    omega
+  · exact a7 P ((hiter k set).mem_iff.mp (List.mem_of_getElem? hget))
+
+/-- the start part of the tensor: one entry per distinct abstraction of a start symbol -/
+theorem starts_spec :
+    (mkLayerU abstraction iter grammars).allStartsAbs.Nodup
+    ∧ (∀ g ∈ grammars, ∀ S ∈ g.2, abstraction S ∈ (mkLayerU abstraction iter grammars).allStartsAbs)
+    ∧ (mkLayerU abstraction iter grammars).outputSize
+        = sumLens (mkLayerU abstraction iter grammars).allPairs
+          + (mkLayerU abstraction iter grammars).allStartsAbs.length :=
+  ⟨(preLayerU_spec abstraction grammars).1.starts_nodup,
+   fun g hg => ((preLayerU_spec abstraction grammars).2 g hg).2, rfl⟩
+
 end Bij
 
 end PS.Predictor
